@@ -179,13 +179,14 @@ Definition add_monitor_items (g_mon g_toadd : guard) (k : rkind) (nitems : nat) 
 Inductive dkind := DNil | DNotification | DOther.
 Inductive note := NValue | NError.   (* what the application receives on Subscription.Notifs *)
 
-Record presp := { p_kind : rkind; p_known : bool; p_nacks : nat; p_data : list dkind }.
+Record presp := { p_kind : rkind; p_known : bool; p_nacks : nat; p_retry : bool; p_data : list dkind }.
 
-(* handleAcks_NeedsSubMuxLock: pending acknowledgements vs res.Results; all statuses Good in the harness, so every
-   pending acknowledgement is dropped after the loop *)
-Definition handle_acks (g : guard) (pending nres : nat) : step * nat :=
+(* handleAcks_NeedsSubMuxLock: pending acknowledgements vs res.Results.  A count mismatch resets the pending list (when
+   the site has that guard); then res[i] for i over the pending list.  The harness sends either all Good statuses
+   (every pending acknowledgement is dropped) or all retryable ones ([retry]: every one is kept). *)
+Definition handle_acks (g : guard) (pending nres : nat) (retry : bool) : step * nat :=
   let pending' := match g with GResetOnMismatch => if pending =? nres then pending else 0 | _ => pending end in
-  (range_site GNone nres pending' 0, 0).
+  (range_site GNone nres pending' 0, if retry then pending' else 0).
 
 Definition notify_data (d : dkind) : note := match d with DNotification => NValue | _ => NError end.
 
@@ -195,7 +196,7 @@ Inductive pub_res := PubGo (pending : nat) (notes : list note) | PubPaused (note
 Definition publish_one (g : guard) (pending : nat) (r : presp) : pub_res :=
   match p_kind r with
   | KExpected =>
-      match handle_acks g pending (p_nacks r) with
+      match handle_acks g pending (p_nacks r) (p_retry r) with
       | (Boom, _) => PubPanic
       | (_, pend) =>
           if p_known r then
